@@ -69,8 +69,10 @@ TRUSTED = [
     "norm-oracle answers from a float mirror of the loop in checks/c05.py: span and small-eigenproblem residual 1e-8); "
     "Householder QR and the Gaussian generator are oracles (contract: least-squares solution; any matrix)",
     "tolerances of the end-to-end stream: per column, tau*sqrt(lam_a lam_b) + tau_abs*lam_max with tau = 1e-9 (dense) or "
-    "max(1e-9, 1e3*eps*kappa) (randomized; modified Gram-Schmidt loses orthogonality like eps*kappa; measured on /repo "
-    "HEAD <= 45*eps*kappa), tau_abs = 1e-11 / 1e-9: a measured engineering bound, not a theorem",
+    "max(1e-9, 1e3*eps*kappa) for orthogonality / 1e4*eps*kappa for squared norms and residual (randomized; kappa = max("
+    "lam_max / smallest retained eigenvalue, conditioning of B*Omega from the replayed Gram-Schmidt norms); modified "
+    "Gram-Schmidt loses orthogonality like eps*kappa; measured on /repo HEAD over 2000 anisotropic inputs: <= 17, 540, 6 "
+    "times eps*kappa), tau_abs = 1e-11 / 1e-9: a measured engineering bound, not a theorem",
     "extraction (ExtrOcamlBasic only) + OCaml 4.13.1 + coq/extract/c05_driver.ml (hex rational parsing/printing)",
     "harness/c05.cpp + harness/spectral_common.hpp; g++ ASan/UBSan/_GLIBCXX_ASSERTIONS as memory-safety observer "
     "(harness built -O0 -g0 and without the UBSan sub-checks null, alignment, vptr, object-size to keep the cold "
@@ -783,29 +785,36 @@ def gs_replay(Bf, O, n, k):
     return norms, fired, cols
 
 
-def factor_tolerances(lamn, solver):
+def factor_tolerances(lamn, solver, kappa_gs=None):
     """per-entry tolerances of the factor specification, in units where the top eigenvalue lies in [1,4).
     lamn: the d retained reference eigenvalues (ascending, clamped at 0), normalised.
-      T1_ab = tau * sqrt(lam_a lam_b) + tau_abs * lam_max      (Y^T Y = diag lam)
-      T2_c  = tau * lam_max * sqrt(lam_c) + tau_abs * lam_max^1.5   (B Y = Y diag lam)
+      T1_aa = tau_n * lam_a + tau_abs * lam_max                      (squared norm of column a)
+      T1_ab = tau_o * sqrt(lam_a lam_b) + tau_abs * lam_max           (orthogonality)
+      T2_c  = tau_n * lam_max * sqrt(lam_c) + tau_abs * lam_max^1.5   (B Y = Y diag lam)
     and never looser than the uniform tolerance of round 2 (4e-8 dense, 4e-6 randomized).
-    dense: tau = 1e-9 (measured 1e-15), randomized: tau = max(1e-9, 1e3 * eps * kappa), kappa = lam_max / smallest
-    retained eigenvalue: modified Gram-Schmidt loses orthogonality like eps * kappa (measured on /repo HEAD: at most
-    45 * eps * kappa over 2000 anisotropic inputs with kappa up to 1e11); classical Gram-Schmidt loses eps * kappa^2."""
+    dense: tau_o = tau_n = 1e-9 (measured 1.3e-15).
+    randomized: tau_o = max(1e-9, 1e3 * eps * kappa), tau_n = max(1e-9, 1e4 * eps * kappa) with kappa = max(lam_max /
+    smallest retained eigenvalue, largest column norm of B*Omega / smallest replayed Gram-Schmidt norm): modified
+    Gram-Schmidt loses orthogonality like eps * kappa(B*Omega) (classical: eps * kappa^2).  MEASURED on /repo HEAD over 2000
+    anisotropic exact-rank inputs (N 6..48, d 3..6, kappa up to ~5e11): orthogonality <= 17 eps kappa, squared norms
+    <= 540 eps kappa; residual <= 6 eps kappa on 1000 of them.  An engineering bound, not a theorem."""
     d = len(lamn)
     lmax = max(lamn + [0.0])
     tau_abs = 1e-11 if solver == "dense" else 1e-9
     uni = 4e-8 if solver == "dense" else 4e-6
     if solver == "dense":
-        tau = 1e-9
+        tau_o = tau_n = 1e-9
     else:
         pos = [x for x in lamn if x > tau_abs * lmax]
         kappa = (lmax / min(pos)) if pos else 1.0
-        tau = max(1e-9, 1e3 * EPS * kappa)
+        if kappa_gs is not None and kappa_gs == kappa_gs and kappa_gs != float("inf"):
+            kappa = max(kappa, kappa_gs)
+        tau_o = max(1e-9, 1e3 * EPS * kappa)
+        tau_n = max(1e-9, 1e4 * EPS * kappa)
     m = [math.sqrt(max(x, 0.0)) for x in lamn]
-    T1 = [[min(uni, tau * m[a] * m[b] + tau_abs * lmax) for b in range(d)] for a in range(d)]
-    T2 = [min(uni, tau * lmax * m[c] + tau_abs * lmax ** 1.5) for c in range(d)]
-    return T1, T2, tau
+    T1 = [[min(uni, (tau_n if a == b else tau_o) * m[a] * m[b] + tau_abs * lmax) for b in range(d)] for a in range(d)]
+    T2 = [min(uni, tau_n * lmax * m[c] + tau_abs * lmax ** 1.5) for c in range(d)]
+    return T1, T2, tau_o
 
 
 def eval_e2e(ctx, exe, mexe, cases, tab, stats, report=True):
@@ -916,13 +925,17 @@ def eval_e2e(ctx, exe, mexe, cases, tab, stats, report=True):
         rank = numeric_rank(lam, lmax)
         top = [max(x, 0.0) for x in lam[n - d:]]            # the d largest, ascending, clamped
         # ---- randomized front-end: replay the Gram-Schmidt loop of the model on the test matrix the solver drew
-        fired, ambiguous, smin = None, False, None
+        fired, ambiguous, smin, kappa_gs = None, False, None, None
         if c["solver"] == "randomized":
             Om = r.mat("omega")
             Bi = [[fl(x) if x is not None else float("nan") for x in row] for row in B[2]]
             if Om is not None and (Om[0], Om[1]) == (n, d) and all(x is not None for row in Om[2] for x in row):
-                norms, fired, _ = gs_replay(Bi, [[fl(x) for x in row] for row in Om[2]], n, d)
+                Of = [[fl(x) for x in row] for row in Om[2]]
+                norms, fired, _ = gs_replay(Bi, Of, n, d)
                 smin = min(norms)
+                Y0 = matmul(Bi, Of)
+                cmax = max(math.sqrt(math.fsum(Y0[t][cc] ** 2 for t in range(n))) for cc in range(d))
+                kappa_gs = (cmax / smin) if smin > 0 else None
                 ambiguous = abs(smin - GS_CUTOFF) <= 1e-6 * GS_CUTOFF
                 stats["gs_replays"] = stats.get("gs_replays", 0) + 1
                 if fired:
@@ -970,7 +983,7 @@ def eval_e2e(ctx, exe, mexe, cases, tab, stats, report=True):
         s2 = Fraction(2) ** k4
         tol = Fraction(1, 10 ** 8) if c["solver"] == "dense" else Fraction(1, 10 ** 6)
         lamq = [Fraction(x) / s4 for x in top]
-        T1, T2, tau = factor_tolerances([float(x) for x in lamq], c["solver"])
+        T1, T2, tau = factor_tolerances([float(x) for x in lamq], c["solver"], kappa_gs)
         line = "FACTORW %d %d %s %s %s %s %s" % (
             n, d,
             " ".join(qstr(x / s4) for row in Bm for x in row),
